@@ -579,3 +579,79 @@ func ZZ_C15_standardTolerationsCount() {
 	nondet.Observe("selected", len(status.Nodes))
 	nondet.Reach("C15.tolerations.cordoned-node-kept", tolerated && key != "" && !allThree && err == nil)
 }
+
+// ZZ_C15_canarySelectorByExpressions: "each refers to an existing node that matches
+// spec.strategy.canary.nodeSelector" — however the selector is written: by labels, by expressions only
+// (In / NotIn / Exists), or both.  Three nodes labelled pool=canary / staging / other (node2 possibly
+// without the label), one or two canary nodes requested, possibly a non-matching node selected earlier:
+// every selected node matches, a non-matching earlier choice is dropped, too few matching nodes is an error.
+func ZZ_C15_canarySelectorByExpressions() {
+	form := nondet.String("selector", "labels", "in", "notin", "exists", "labels-and-in")
+	sel := &metav1.LabelSelector{}
+	in := metav1.LabelSelectorRequirement{Key: "pool", Operator: metav1.LabelSelectorOpIn, Values: []string{"canary", "staging"}}
+	switch form {
+	case "labels":
+		sel.MatchLabels = map[string]string{"pool": "canary"}
+	case "in":
+		sel.MatchExpressions = []metav1.LabelSelectorRequirement{in}
+	case "notin":
+		sel.MatchExpressions = []metav1.LabelSelectorRequirement{{Key: "pool", Operator: metav1.LabelSelectorOpNotIn, Values: []string{"other"}}}
+	case "exists":
+		sel.MatchExpressions = []metav1.LabelSelectorRequirement{{Key: "pool", Operator: metav1.LabelSelectorOpExists}}
+	default:
+		sel.MatchLabels = map[string]string{"pool": "canary"}
+		sel.MatchExpressions = []metav1.LabelSelectorRequirement{in}
+	}
+	node2Unlabelled := nondet.Bool("node2.withoutTheLabel")
+	pools := []string{"canary", "staging", "other"}
+	matches := func(i int) bool {
+		p, has := pools[i], !(i == 2 && node2Unlabelled)
+		switch form {
+		case "labels", "labels-and-in":
+			return has && p == "canary"
+		case "in":
+			return has && (p == "canary" || p == "staging")
+		case "notin":
+			return !has || p != "other"
+		}
+		return has // exists
+	}
+	replicas := 1
+	if nondet.Bool("twoReplicas") {
+		replicas = 2
+	}
+	r := intstr.FromInt(replicas)
+	ds := zzEDS("ns", "foo", "B", &datadoghqv1alpha1.ExtendedDaemonSetSpecStrategyCanary{Replicas: &r, NodeSelector: sel})
+	c := fakeapi.New()
+	nMatch := 0
+	for i := 0; i < 3; i++ {
+		n := &corev1.Node{ObjectMeta: metav1.ObjectMeta{Name: "node" + strconv.Itoa(i), Labels: map[string]string{}}}
+		if !(i == 2 && node2Unlabelled) {
+			n.Labels["pool"] = pools[i]
+		}
+		c.Nodes = append(c.Nodes, n)
+		if matches(i) {
+			nMatch++
+		}
+	}
+	status := &datadoghqv1alpha1.ExtendedDaemonSetStatusCanary{ReplicaSet: "foo-b"}
+	if nondet.Bool("node2SelectedEarlier") {
+		status.Nodes = []string{"node2"}
+	}
+	rs := zzRS(ds, "B", "foo-b", nondet.Base().Add(-time.Minute))
+	err := zzReconciler(c).selectNodes(logr.Logger{}, ds, &ds.Spec, rs, status)
+	nondet.Assert("C15.expr.error-when-too-few", nondet.Implies(nMatch < replicas, err != nil))
+	nondet.Assert("C15.expr.succeeds-when-enough", nondet.Implies(nMatch >= replicas, err == nil))
+	if err == nil {
+		nondet.Assert("C15.expr.count", len(status.Nodes) == replicas)
+		for _, name := range status.Nodes {
+			for i := 0; i < 3; i++ {
+				if name == "node"+strconv.Itoa(i) {
+					nondet.Assert("C15.expr.every-selected-node-matches-the-selector", matches(i))
+				}
+			}
+		}
+	}
+	nondet.Observe("selected", len(status.Nodes))
+	nondet.Reach("C15.expr.expressions-only", form == "in" && err == nil && replicas == 2)
+}
